@@ -68,6 +68,17 @@ fn default_history_size() -> usize {
 
 impl MetricsServer {
     pub fn init(&mut self) -> Result<(), Error> {
+        // the router and the header layer panic on these, so refuse them while loading
+        ensure!(
+            self.api_prefix.starts_with('/') && !self.api_prefix.contains('*'),
+            "apiPrefix must start with '/' and contain no wildcard: {:?}",
+            self.api_prefix
+        );
+        ensure!(
+            HeaderValue::from_str(&self.cors).is_ok(),
+            "cors is not a valid header value: {:?}",
+            self.cors
+        );
         if let Some(ui) = &self.ui {
             #[cfg(feature = "embedded-ui")]
             if ui == "<embedded>" {
